@@ -733,7 +733,62 @@ def r03_16(chk):
     chk.floor("R03.16", 2, "filtered and sample")
 
 
+RAW_GETTERS = {"get_seq_array", "get_seq_str", "get_seq_bytes"}
+
+
+def _orientation_of(fn, expr, depth=0):
+    """'raw' when the data derives from the store's plus-strand getters, 'realised' when it derives from the
+    sequences the collection hands out (already reverse complemented where flagged), else None"""
+    kinds = set()
+    for x in ast.walk(expr):
+        if isinstance(x, ast.Call) and isinstance(x.func, ast.Attribute) and x.func.attr in RAW_GETTERS and norm(x.func.value) == "self.seqs":
+            kinds.add("raw")
+        if isinstance(x, ast.Subscript) and norm(x.value) == "self.seqs":
+            kinds.add("realised")
+        if isinstance(x, ast.comprehension) and norm(x.iter) == "self.seqs":
+            kinds.add("realised")
+        if isinstance(x, ast.Call) and isinstance(x.func, ast.Attribute) and x.func.attr in ("get_seq", "iter_seqs") and norm(x.func.value) == "self":
+            kinds.add("realised")
+    if depth < 3:
+        for nm in {x.id for x in ast.walk(expr) if isinstance(x, ast.Name) and isinstance(x.ctx, ast.Load)}:
+            for st in walk_no_nested(fn):
+                if isinstance(st, ast.Assign) and any(isinstance(t, ast.Name) and t.id == nm for t in st.targets):
+                    kinds |= _orientation_of(fn, st.value, depth + 1) or set()
+                if isinstance(st, ast.Assign) and any(isinstance(t, ast.Subscript) and norm(t.value) == nm for t in st.targets):
+                    kinds |= _orientation_of(fn, st.value, depth + 1) or set()
+                if isinstance(st, ast.For) and isinstance(st.target, ast.Name) and st.target.id == nm and norm(st.iter) == "self.seqs":
+                    kinds.add("realised")
+    return kinds
+
+
+def r03_17(chk):
+    chk.rule("R03.17", "orientation coherence when a new-type collection rebuilds its store: `reversed_seqs=self.seqs.reversed` tells the new SeqsData that its data is plus-strand text still to be reverse complemented on reading -- so it accompanies only data taken from the store's raw getters (self.seqs.get_seq_array/str/bytes); data taken from the sequences the collection hands out (self.seqs[name], iteration over self.seqs) is already in display orientation and is stored WITHOUT the flag; mixing them reverse complements twice (rc().trim_stop_codons() returned the plus strand, trimmed at the wrong end)")
+    m = chk.repo.module("core/new_alignment.py")
+    n = 0
+    for q, fn in m.all_functions():
+        if not q.startswith(("SequenceCollection.", "Alignment.")):
+            continue
+        for c in walk_no_nested(fn):
+            if not (isinstance(c, ast.Call) and norm(c.func) in ("self.seqs.__class__", "SeqsData", "self._seqs_data.__class__")):
+                continue
+            data = next((kw.value for kw in c.keywords if kw.arg == "data"), None)
+            if data is None:
+                continue
+            rev = next((kw.value for kw in c.keywords if kw.arg == "reversed_seqs"), None)
+            kinds = _orientation_of(fn, data)
+            n += 1
+            k = key(m, q, "store rebuilt with coherent orientation")
+            if kinds == {"realised"}:
+                chk.decide(rev is None, "R03.17", k, m.loc(c), "display-orientation data stored without the reversed flag", f"the data given to `{norm(c.func)}` comes from the sequences the collection hands out (already reverse complemented) yet `reversed_seqs={norm(rev) if rev is not None else ''}` flags it for reverse complementing again: make_unaligned_seqs({{'s1':'TTACATAAA','s2':'CCCCATGGG'}}, new_type=True).rc().trim_stop_codons() gives s1='CATAAA' instead of 'TTTATG'")
+            elif kinds == {"raw"}:
+                chk.decide(rev is not None, "R03.17", k, m.loc(c), "raw store data keeps its reversed flag", "raw plus-strand data of a possibly reversed collection is stored without `reversed_seqs`: the result forgets that it was reverse complemented")
+            else:
+                chk.unresolved("R03.17", k, m.loc(c), f"origin of the data not classified ({sorted(kinds) or 'none'})")
+    chk.floor("R03.17", 3, "degap, get_translation, trim_stop_codons, pad_seqs")
+
+
 def run(chk):
+    r03_17(chk)
     r03_16(chk)
     # a row of an annotatable alignment is a sequence view: the raw-view discipline of C01 (R01.1) is what keeps
     # 'no character is altered other than by complementing or the T/U exchange' true for rc() followed by a conversion
